@@ -30,6 +30,8 @@ def run(facts, rep, ctx):
     lz13_classes(facts, rep, R1, R2)
     decoder_totality(facts, rep, R3, ctx)
     error_mapping(facts, rep, R4)
+    R5 = rep.rule("R11.5", "every Ok result is the decoder's output (LZ13 stored form excepted): no shortcut decides the content", floor=2)
+    ok_provenance(facts, rep, R5)
 
 
 def dispatch(facts, rep, R1):
@@ -272,6 +274,44 @@ def decoder_totality(facts, rep, R3, ctx):
             rep.violation(R3, b.name, "delegates-to-partial-decoder",
                           "%s hands the caller's bytes to nintendo_lz::decompress_arr, which panics on malformed input (%d definite site(s), e.g. %s at %s)" % (
                               b.name, len(sites), first["msg"][:160], first["where"]), where)
+
+
+def ok_provenance(facts, rep, R5):
+    """Every path of the two decompress entry points that returns Ok returns the decoder's output;
+    the only exception is LZ13's stored form (first byte 0), which returns the payload after the header."""
+    for fmtn in (LZ10, LZ13):
+        b = facts.body(fmtn + "::decompress")
+        if b is None:
+            continue
+        try:
+            paths = enum_paths(b)
+        except PathLimit:
+            rep.inconc(R5, b.name + ": too many paths")
+            continue
+        bad = None
+        n = 0
+        for p in paths:
+            if p.end != "ret" or is_err_term(p.ret) is not False:
+                continue
+            n += 1
+            dec = [e for e in p.events if e["k"] == "call" and e["callee"] == DEC]
+            if dec and any(x == dec[0]["val"] for x in walk(p.ret)):
+                continue
+            stored = False
+            for (bb, term, vals, neg, dty) in p.conds:
+                ct = cond_truth((term, vals, neg, dty))
+                if ct and ct[1] and ct[0][0] == "bin" and ct[0][1] == "Eq" and ct[0][3][0] == "const" and ct[0][3][1] == 0 and strip_refs(ct[0][2])[0] == "index" and fmtn == LZ13:
+                    stored = True
+            if stored:
+                continue
+            conds = "; ".join(fmt(c[1])[:50] for c in p.conds)
+            bad = "returns Ok(%s) without running the decoder when [%s]" % (fmt(p.ret[4][0])[:40] if p.ret[0] == "agg" else fmt(p.ret)[:40], conds)
+        if bad:
+            rep.violation(R5, b.name, "ok-without-decoder", "%s %s" % (b.name.rsplit("::", 2)[-2] + "::decompress", bad), "%s:%s" % (b.file, b.line))
+        elif n:
+            rep.ok(R5, {"fn": b.name, "ok_paths": n})
+        else:
+            rep.inconc(R5, b.name + ": no Ok path found")
 
 
 def error_mapping(facts, rep, R4):
